@@ -11,7 +11,8 @@
 (*   list <<...>> | tuple <<...>> | set {...}                              *)
 (*   dict << <<key, value>>, ... >>  in insertion order, keys distinct     *)
 (*   bag [element -> count]  a set WRITTEN as a list by dump (any order)   *)
-(*   exc 0   an exception OBJECT that ended up as a value (see excLeak)    *)
+(*   exc 0   an exception OBJECT as a value (no branch produces it since   *)
+(*           /repo 00430dc; inputs never hold one)                         *)
 (*   fail 0  "the loader raised" (never a value of a configuration)        *)
 (* TYPE TERMS use the same record shape:                                   *)
 (*   str int float bool none any path <<>>     leaf types                  *)
@@ -35,12 +36,13 @@
 (*         object it was given.                                            *)
 (* Every Alg result carries `dev`, the set of NAMED deviations from Ref    *)
 (* that the evaluation went through:                                       *)
-(*   excLeak     Union loop: after the str member took the orig_val        *)
-(*               fall-back a later member failed and vals[-1] (an          *)
-(*               exception object) became the value; validation then       *)
-(*               rejects what another member order accepts.                *)
-(*   origNested  the same fall-back inside a container: the ELEMENT        *)
-(*               becomes the text of the WHOLE argument.                   *)
+(*   (excLeak -- vals[-1], an exception object, became the value when a    *)
+(*               member failed after the str member's orig_val fall-back   *)
+(*               -- was repaired by /repo 00430dc: the loop now keeps the   *)
+(*               last attempt that succeeded; the arm is gone.)            *)
+(*   origNested  the str member's orig_val fall-back inside a container:   *)
+(*               the ELEMENT becomes the text of the WHOLE argument (since *)
+(*               00430dc in every member order, see AlgUnionLoop).         *)
 (*   inPlace     Union loop: a member that failed half-way through a list  *)
 (*               or dict left it partly converted, and the next member is  *)
 (*               tried on the converted object (Union[List[int],List[str]] *)
@@ -57,9 +59,16 @@
 (*   noneOverDefault (dump; recognised by Trace_Types) an explicit None for *)
 (*               an argument that has a default is left out by dump        *)
 (*               (skip_none), so the re-parse fills in the default again.  *)
-(*   clashKey    an argument named like a Namespace method (items, keys,   *)
-(*               get ...) is not normalised by parse_object / parse_string:*)
-(*               List[int] keeps ['3'].                                    *)
+(*   dumpLeak    (dump) dump(cfg) works on a clone that shares tuples with *)
+(*               cfg: a list below a tuple is serialised IN PLACE in the   *)
+(*               caller's configuration -- ([(1.5,)],) is ([[1.5]],) after *)
+(*               the dump.                                                 *)
+(*   leftInstance (dump) a value of a restricted type is an instance of a  *)
+(*               sub-class of int / float / str; a Union member that is    *)
+(*               tried before the restricted one and serialises by         *)
+(*               returning the object (Enum, Literal, Any, int, float,     *)
+(*               str) leaves that instance in the tree, and the yaml       *)
+(*               dumper raises RepresenterError (json writes it).          *)
 (*   setListing  a set with two or more members is turned into a List or   *)
 (*               Tuple: the order is whatever Python lists the set in, so  *)
 (*               Union[Tuple[int,str],Set[str]] may read its own result    *)
@@ -153,7 +162,13 @@ UnionT(ts)    == [k |-> "union", v |-> ts]
 
 LeafKinds == {"str", "int", "float", "bool", "none"}
 IsStr(x)  == x.k = "str"
-IsSeqLike(x) == x.k \in {"list", "tuple", "set", "bag"}
+\* the registered values that are Iterable (a range, a bytes): adapt_typehints:891-892 makes a list of ANY iterable that is
+\* not a list / str / mapping, so List[int] given range(5) is [0, 1, 2, 3, 4] and given b"ab" is [97, 98]
+IterTbl == ("range" :> (("0,5,1" :> <<0, 1, 2, 3, 4>>) @@ ("0,10,2" :> <<0, 2, 4, 6, 8>>) @@ ("1,5,1" :> <<1, 2, 3, 4>>) @@ ("0,0,1" :> << >>) @@ ("5,0,-1" :> <<5, 4, 3, 2, 1>>)))
+        @@ ("bytes" :> (("" :> << >>) @@ ("6162" :> <<97, 98>>) @@ ("ff00" :> <<255, 0>>) @@ ("61" :> <<97>>)))
+IsIterReg(x) == x.k = "reg" /\ x.v[1] \in DOMAIN IterTbl /\ x.v[2] \in DOMAIN IterTbl[x.v[1]]
+IsSeqLike(x) == x.k \in {"list", "tuple", "set", "bag"}                   \* what Tuple / Set take (:854)
+IsListable(x) == IsSeqLike(x) \/ IsIterReg(x)                             \* what List takes (:891)
 Range(s)  == {s[i] : i \in 1..Len(s)}
 Min(S)    == CHOOSE n \in S : \A o \in S : n <= o
 
@@ -169,7 +184,8 @@ RECURSIVE BagAsSeq(_, _)
 BagAsSeq(f, es) == IF Len(es) = 0 THEN << >> ELSE Repeat(Head(es), f[Head(es)]) \o BagAsSeq(f, Tail(es))
 BagOf(s) == [e \in Range(s) |-> Cardinality({i \in 1..Len(s) : s[i] = e})]
 \* list(val); the order of a set is not specified
-AsSeq(x) == IF x.k = "set" THEN SetAsSeq(x.v) ELSE IF x.k = "bag" THEN BagAsSeq(x.v, SetAsSeq(DOMAIN x.v)) ELSE x.v
+AsSeq(x) == IF x.k = "set" THEN SetAsSeq(x.v) ELSE IF x.k = "bag" THEN BagAsSeq(x.v, SetAsSeq(DOMAIN x.v))
+            ELSE IF x.k = "reg" THEN [n \in 1..Len(IterTbl[x.v[1]][x.v[2]]) |-> IntV(IterTbl[x.v[1]][x.v[2]][n])] ELSE x.v
 
 RECURSIVE SeqProd(_)
 SeqProd(ss) == IF Len(ss) = 0 THEN {<< >>} ELSE {<<h>> \o tl : h \in Head(ss), tl \in SeqProd(Tail(ss))}
@@ -215,7 +231,7 @@ D1(key, val) == DictV(<< <<key, val>> >>)
 YamlTbl ==
      ("null" :> NoneV) @@ ("~" :> NoneV) @@ ("Null" :> NoneV)
   @@ ("true" :> BoolV(TRUE)) @@ ("false" :> BoolV(FALSE)) @@ ("yes" :> BoolV(TRUE)) @@ ("True" :> BoolV(TRUE))
-  @@ ("off" :> BoolV(FALSE))
+  @@ ("off" :> BoolV(FALSE)) @@ ("False" :> BoolV(FALSE))
   @@ ("0" :> IntV(0)) @@ ("1" :> IntV(1)) @@ ("2" :> IntV(2)) @@ ("-1" :> IntV(-1)) @@ (" 1 " :> IntV(1))
   @@ ("0x10" :> IntV(16)) @@ ("1_000" :> IntV(1000))
   @@ ("1.5" :> FloatV(3, 2)) @@ ("1.0" :> FloatV(1, 1)) @@ ("1e3" :> FloatV(1000, 1)) @@ ("-0.5" :> FloatV(-1, 2))
@@ -232,6 +248,8 @@ YamlTbl ==
   @@ ("{\"a\": \"1\", \"b\": x}" :> DictV(<< <<StrV("a"), StrV("1")>>, <<StrV("b"), StrV("x")>> >>))
   @@ ("1:00:00" :> IntV(3600)) @@ ("25:00:00" :> IntV(90000)) @@ ("24:00:00" :> IntV(86400)) @@ ("1:00" :> IntV(60))      \* YAML 1.1 base 60
   @@ ("0:00:00.5" :> FloatV(1, 2)) @@ ("0:00:00.500000" :> FloatV(1, 2)) @@ ("5" :> IntV(5)) @@ ("1234" :> IntV(1234))
+  @@ ("2.0" :> FloatV(2, 1)) @@ ("1000.0" :> FloatV(1000, 1)) @@ ("0.0" :> FloatV(0, 1)) @@ ("0.5" :> FloatV(1, 2)) @@ ("16.0" :> FloatV(16, 1))   \* what str() writes
+  @@ ("16" :> IntV(16)) @@ ("1000" :> IntV(1000))
   @@ ("[1" :> FailV) @@ ("{a" :> FailV) @@ ("\"a" :> FailV) @@ ("a: b: c" :> FailV)
 Yaml(s)  == IF s \in DOMAIN YamlTbl THEN YamlTbl[s] ELSE StrV(s)       \* yaml_load:85-96
 Blank(s) == s \in {"", " "}
@@ -250,7 +268,7 @@ LoadSimple(s) == IF Blank(s) \/ s = "-" THEN StrV(s)
                  ELSE LET y == Yaml(s) IN IF y.k \in {"fail", "str"} THEN StrV(s) ELSE y
 
 \* Python's int(key) as used for the keys of Dict[int, ...] (:913-915)
-PyIntTbl == ("0" :> 0) @@ ("1" :> 1) @@ ("2" :> 2) @@ ("-1" :> -1) @@ (" 1 " :> 1) @@ ("1_000" :> 1000)
+PyIntTbl == ("0" :> 0) @@ ("1" :> 1) @@ ("2" :> 2) @@ ("-1" :> -1) @@ (" 1 " :> 1) @@ ("1_000" :> 1000) @@ ("5" :> 5) @@ ("1234" :> 1234) @@ ("16" :> 16) @@ ("1000" :> 1000)
 Trunc(n, d) == IF n >= 0 THEN n \div d ELSE -((-n) \div d)
 IntCast(key) == IF key.k = "int" THEN key
                 ELSE IF key.k = "bool" THEN IntV(IF key.v THEN 1 ELSE 0)
@@ -287,7 +305,8 @@ RStrDefs == ("sku_u" :> [pat |-> "[A-Z]{3}-[0-9]{4}$", m |-> {"ABC-1234"}])     
          @@ ("pre"   :> [pat |-> "ab", m |-> {"ab", "abc"}])                            \* a prefix: nothing anchors the end
 \* float(text) of Python (int(text) is PyIntTbl): not YAML -- "0x10" is refused, "1_000" and " 1 " are read
 PyFloatTbl == ("0" :> <<0, 1>>) @@ ("1" :> <<1, 1>>) @@ ("2" :> <<2, 1>>) @@ ("-1" :> <<-1, 1>>) @@ (" 1 " :> <<1, 1>>) @@ ("1_000" :> <<1000, 1>>)
-           @@ ("1.5" :> <<3, 2>>) @@ ("1.0" :> <<1, 1>>) @@ ("1e3" :> <<1000, 1>>) @@ ("-0.5" :> <<-1, 2>>)
+           @@ ("1.5" :> <<3, 2>>) @@ ("1.0" :> <<1, 1>>) @@ ("1e3" :> <<1000, 1>>) @@ ("-0.5" :> <<-1, 2>>) @@ ("5" :> <<5, 1>>) @@ ("1234" :> <<1234, 1>>)
+           @@ ("2.0" :> <<2, 1>>) @@ ("1000.0" :> <<1000, 1>>) @@ ("0.0" :> <<0, 1>>) @@ ("0.5" :> <<1, 2>>) @@ ("16.0" :> <<16, 1>>) @@ ("16" :> <<16, 1>>) @@ ("1000" :> <<1000, 1>>)
 \* restricted_number_type:106-176.  rs: <<operator, numerator, denominator of the reference>>
 \* (user-defined: none of them is one of the predefined types PositiveInt, NonNegativeInt, ClosedUnitInterval ...)
 RNumDefs == ("gt1i" :> [base |-> "int", join |-> "and", rs |-> << <<">", 1, 1>> >>])
@@ -327,9 +346,9 @@ RegDefs ==
                               @@ ("0:00:00.5" :> TdHalf) @@ ("0:00:00.500000" :> TdHalf),
                       num |-> << >>, bad |-> {"1:00", "1 day", "abc", "1"}])
   @@ ("range" :> [ser |-> ("0,5,1" :> StrV("range(5)")) @@ ("0,10,2" :> StrV("range(0, 10, 2)")) @@ ("1,5,1" :> StrV("range(1, 5)")) @@ ("0,0,1" :> StrV("range(0)"))
-                          @@ ("-3,5,-1" :> StrV("range(-3, 5, -1)")),
+                          @@ ("5,0,-1" :> StrV("range(5, 0, -1)")),
                   txt |-> ("range(5)" :> "0,5,1") @@ ("range(0, 5)" :> "0,5,1") @@ ("range(0, 5, 1)" :> "0,5,1") @@ ("range(0, 10, 2)" :> "0,10,2")
-                          @@ ("range(0,10,2)" :> "0,10,2") @@ ("range(1, 5)" :> "1,5,1") @@ ("range(1,5)" :> "1,5,1") @@ ("range(0)" :> "0,0,1") @@ ("range(-3, 5, -1)" :> "-3,5,-1"),
+                          @@ ("range(0,10,2)" :> "0,10,2") @@ ("range(1, 5)" :> "1,5,1") @@ ("range(1,5)" :> "1,5,1") @@ ("range(0)" :> "0,0,1") @@ ("range(5, 0, -1)" :> "5,0,-1"),
                   num |-> << >>, bad |-> {"5", "range(1, 2, 3, 4)", "range(a)", "abc"}])
   @@ ("decimal" :> [ser |-> ("0/1" :> FloatV(0, 1)) @@ ("1/2" :> FloatV(1, 2)) @@ ("1/1" :> FloatV(1, 1)) @@ ("2/1" :> FloatV(2, 1)) @@ ("3/2" :> FloatV(3, 2)) @@ ("1000/1" :> FloatV(1000, 1)) @@ ("-1/2" :> FloatV(-1, 2)),
                     txt |-> ("0" :> "0/1") @@ ("0.5" :> "1/2") @@ ("1" :> "1/1") @@ ("1.0" :> "1/1") @@ (" 1 " :> "1/1") @@ ("2" :> "2/1") @@ ("1.5" :> "3/2") @@ ("1_000" :> "1000/1") @@ ("1e3" :> "1000/1") @@ ("-0.5" :> "-1/2"),
@@ -344,6 +363,23 @@ RegDefs ==
   @@ ("uuid" :> [ser |-> (UU :> StrV(UU)), txt |-> (UU :> UU) @@ ("{" \o UU \o "}" :> UU) @@ ("urn:uuid:" \o UU :> UU), num |-> << >>, bad |-> {"abc", "1234"}])
   @@ ("bytes" :> [ser |-> ("" :> StrV("")) @@ ("6162" :> StrV("YWI=")) @@ ("ff00" :> StrV("/wA=")) @@ ("61" :> StrV("YQ==")),
                   txt |-> ("" :> "") @@ ("YWI=" :> "6162") @@ ("/wA=" :> "ff00") @@ ("YQ==" :> "61"), num |-> << >>, bad |-> {"YWI", "a", "1"}])
+\* str(x) / int(x) / float(x) of Python, as the serializers of these types apply them to WHATEVER they are given
+\* (adapt_typehints:802-803 does not look at the value first): None if the call raises
+Abs(n) == IF n < 0 THEN -n ELSE n
+AnyStrV == [k |-> "anystr", v |-> 0]         \* a text that the model does not spell out (only ever inside a serialised tree)
+PyStr(x) == CASE IsStr(x) -> x [] x.k = "int" -> StrV(ToString(x.v)) [] x.k = "bool" -> StrV(IF x.v THEN "True" ELSE "False")
+              [] x.k = "none" -> StrV("None")
+              [] x.k = "float" /\ x.v[2] = 1 -> StrV(ToString(x.v[1]) \o ".0")            \* repr of a float that is a whole number (below 1e16)
+              [] x.k = "float" /\ x.v[2] = 2 -> StrV((IF x.v[1] < 0 THEN "-" ELSE "") \o ToString(Abs(x.v[1]) \div 2) \o ".5")
+              [] x.k = "enum" -> StrV(x.v[1] \o "." \o x.v[2])                              \* str(E.A) = 'E.A'
+              [] x.k = "reg" /\ x.v[1] \in {"timedelta", "uuid", "complex"} -> RegDefs[x.v[1]].ser[x.v[2]]   \* (their serializer is str)
+              [] OTHER -> AnyStrV                                                          \* repr of a container, of a range ...: SOME text
+PyNum(base, x) == IF x.k = "int" THEN (IF base = "int" THEN x ELSE FloatV(x.v, 1))
+                  ELSE IF x.k = "bool" THEN (IF base = "int" THEN IntV(IF x.v THEN 1 ELSE 0) ELSE FloatV(IF x.v THEN 1 ELSE 0, 1))
+                  ELSE IF x.k = "float" THEN (IF base = "float" THEN x ELSE IntV(Trunc(x.v[1], x.v[2])))
+                  ELSE IF IsStr(x) /\ base = "int" /\ x.v \in DOMAIN PyIntTbl THEN IntV(PyIntTbl[x.v])
+                  ELSE IF IsStr(x) /\ base = "float" /\ x.v \in DOMAIN PyFloatTbl THEN FloatV(PyFloatTbl[x.v][1], PyFloatTbl[x.v][2])
+                  ELSE FailV
 RegNames == DOMAIN RegDefs
 RegValues(n) == {RegV(n, c) : c \in DOMAIN RegDefs[n].ser}
 \* what the deserializer makes of x (a value code), or "" \o FailV ...: the value itself when it already is one
@@ -354,6 +390,7 @@ RegRead(n, x) == IF x.k = "reg" /\ x.v[1] = n THEN x
 RegWrite(n, x) == RegDefs[n].ser[x.v[2]]
 \* The parser accepts its own dump: whatever a serializer writes is read back as the value it was written for
 \* (C20 / C10 for these types; checked by TLC when the module is loaded)
+ASSUME IterTblComplete == \A n \in DOMAIN IterTbl : DOMAIN IterTbl[n] = DOMAIN RegDefs[n].ser
 ASSUME RegSelfConsistent == \A n \in RegNames : \A y \in RegValues(n) : RegRead(n, RegWrite(n, y)) = y
 
 (***************************************************************************)
@@ -393,7 +430,7 @@ Acc(t, x) ==
     [] t.k = "literal"   -> LitRead(t, x) \in LitMembers(t) /\ (LitRead(t, x) # x => LitRead(t, x).k # "str")
     [] t.k = "enum"      -> (x.k = "enum" /\ x.v[1] = EnumCls(t)) \/ (x.k = "str" /\ x.v \in EnumMembers(EnumCls(t)))
     [] t.k = "union"     -> \E i \in 1..Len(t.v) : Acc(t.v[i], x)
-    [] t.k \in {"list", "tupleE"} -> IsSeqLike(x) /\ (Len(t.v) = 0 \/ \A e \in Range(AsSeq(x)) : Acc(t.v[1], e))
+    [] t.k \in {"list", "tupleE"} -> (IF t.k = "list" THEN IsListable(x) ELSE IsSeqLike(x)) /\ (Len(t.v) = 0 \/ \A e \in Range(AsSeq(x)) : Acc(t.v[1], e))
     [] t.k = "set"       -> IsSeqLike(x) /\ \A e \in Range(AsSeq(x)) : Acc(t.v[1], e) /\ \E r \in Res(t.v[1], e) : Hashable(r)
     [] t.k = "tuple"     -> IsSeqLike(x) /\ Len(AsSeq(x)) = Len(t.v) /\ \A n \in 1..Len(t.v) : Acc(t.v[n], AsSeq(x)[n])
     [] t.k = "dict"      -> x.k = "dict" /\ (Len(t.v) = 0 \/ (/\ \A p \in Range(x.v) : KeyAcc(t.v[1], p[1])
@@ -519,15 +556,19 @@ AlgAdapt(t, val, orig, top, ser) ==
          IN IF ~IsInstance(t.k, v2) \/ (t.k \in {"int", "float"} /\ v2.k = "bool") THEN Er({}, val)
             ELSE Ok(v2, IF ser /\ IsStr(val) /\ t.k # "str" THEN {"serLenient"} ELSE {}, val)
     [] t.k = "rstr" ->                                                                   \* :800-805 + extend_base_type.__new__:92-94
-         IF ser THEN Ok(val, {}, val)                                                    \* serializer = str
+         IF ser THEN Ok(PyStr(val), IF IsStr(val) THEN {} ELSE {"serLenient"}, val)       \* serializer = str, of anything
          ELSE IF IsStr(val) /\ val.v \in RStrDefs[DefName(t)].m THEN Ok(val, {}, val)    \* cls._regex.match(v)
          ELSE Er({}, val)
     [] t.k = "rnum" ->                                                                   \* :800-805 + validation_fn:159-167
-         IF ser THEN Ok(val, {}, val)                                                    \* serializer = int / float of a value that has that type
+         IF ser THEN (IF PyNum(RNumDefs[DefName(t)].base, val) = FailV THEN Er({}, val)   \* serializer = int / float, of anything
+                      ELSE Ok(PyNum(RNumDefs[DefName(t)].base, val), IF val.k = RNumDefs[DefName(t)].base THEN {} ELSE {"serLenient"}, val))
          ELSE IF RNumOk(RNumDefs[DefName(t)], val) THEN Ok(RNumCast(RNumDefs[DefName(t)], val), {}, val)
          ELSE Er({}, val)
     [] t.k = "reg" ->                                                                    \* :800-805 with the (de)serializers of typing.py:385-468
-         IF ser THEN Ok(IF val.k = "reg" /\ val.v[1] = DefName(t) THEN RegWrite(DefName(t), val) ELSE val, {}, val)
+         IF ser THEN (IF val.k = "reg" /\ val.v[1] = DefName(t) THEN Ok(RegWrite(DefName(t), val), {}, val)
+                      ELSE IF DefName(t) \in {"timedelta", "uuid", "complex"} THEN Ok(PyStr(val), {"serLenient"}, val)         \* serializer = str
+                      ELSE IF DefName(t) = "decimal" /\ PyNum("float", val) # FailV THEN Ok(PyNum("float", val), {"serLenient"}, val)  \* float
+                      ELSE Er({}, val))                                                            \* range_serializer / b64encode raise
          ELSE IF RegRead(DefName(t), val) # FailV THEN Ok(RegRead(DefName(t), val), {}, val)       \* is_value_of_type, else the deserializer
          ELSE Er({}, val)
     [] t.k = "path" ->                                                                   \* :800-805 registered type Path_fr
@@ -542,7 +583,7 @@ AlgAdapt(t, val, orig, top, ser) ==
          ELSE IF val.k = "str" /\ val.v \in EnumMembers(EnumCls(t)) THEN Ok(EnumV(EnumCls(t), val.v), {}, val)
          ELSE Er({}, val)
     [] t.k = "union" ->                                                                  \* :833-847
-         AlgUnionLoop(SortUnion(t.v, val), 1, val, orig, top, ser, [good |-> FALSE, last |-> "none", dev |-> {}])
+         AlgUnionLoop(SortUnion(t.v, val), 1, val, orig, top, ser, [good |-> FALSE, dev |-> {}])
     [] t.k \in {"tuple", "tupleE", "set"} ->                                             \* :850-863
          IF ~IsSeqLike(val) THEN Er({}, val)
          ELSE LET s == AsSeq(val) IN                                                     \* val = list(val): always a copy
@@ -560,7 +601,7 @@ AlgAdapt(t, val, orig, top, ser) ==
                                                 ELSE Ok(SetV(KeepFirst(vs, 1, {})), dv, mm))
                       ELSE Ok(TupleV(vs), dv, mm)
     [] t.k = "list" ->                                                                   \* :866-899 (append=False, no path)
-         IF ~IsSeqLike(val) THEN Er({}, val)                                             \* dict / str / scalars are refused
+         IF ~IsListable(val) THEN Er({}, val)                                            \* dict / str / scalars are refused
          ELSE LET s == AsSeq(val)                                                        \* a tuple / set is copied (:888-889),
                   inplace == val.k = "list"                                              \* a list is converted IN PLACE (:899)
               IN IF Len(t.v) = 0 THEN Ok(ListV(s), Listing(t, val), val)
@@ -592,13 +633,15 @@ AlgAdapt(t, val, orig, top, ser) ==
                       IN IF FirstFail(rs, Len(ps)) # 0 THEN Er(kd \cup DevsOf(rs, Len(ps)), mm)
                          ELSE Ok(DictV([n \in 1..Len(ps) |-> <<ps[n][1], rs[n].v>>]), kd \cup DevsOf(rs, Len(ps)), mm)
 
-\* the trial loop :836-847.  st.last is vals[-1] ("exc" an exception, "orig" the orig_val fall-back),
-\* st.good = not all(isinstance(v, Exception) for v in vals).  Every member is tried on the SAME object.
+\* the trial loop :836-850.  st.good = not all(isinstance(v, Exception) for v in vals): the only entries of vals that are
+\* not exceptions and do not end the loop are the orig_val fall-backs of the str member, so when no member accepts the
+\* value is [v for v in vals if not isinstance(v, Exception)][-1] = orig_val (:850, /repo 00430dc; before that commit it
+\* was vals[-1], an exception object whenever a member failed after the fall-back -- the former deviation excLeak).
+\* Every member is tried on the SAME object.
 AlgUnionLoop(ts, i, val, orig, top, ser, st) ==
   IF i > Len(ts)
   THEN IF ~st.good THEN Er(st.dev, val)                                                  \* raise_union_unexpected_value
-       ELSE IF st.last = "exc" THEN Ok(ExcV, st.dev \cup {"excLeak"}, val)               \* val = vals[-1]: an exception object
-       ELSE Ok(orig, st.dev \cup (IF top THEN {} ELSE {"origNested"}), val)              \* val = vals[-1]: the original text
+       ELSE Ok(orig, st.dev \cup (IF top THEN {} ELSE {"origNested"}), val)              \* the last attempt that is not an exception: the original text
   ELSE LET r  == AlgAdapt(ts[i], val, orig, top, ser)
            dv == st.dev \cup r.dev \cup (IF ~r.ok /\ r.m # val /\ i < Len(ts) THEN {"inPlace"} ELSE {})   \* the next member gets a changed object
            \* the first member that accepts wins, also when the value already is a normal form of a LATER member and
@@ -606,8 +649,8 @@ AlgUnionLoop(ts, i, val, orig, top, ser, st) ==
            fm == IF ~ser /\ r.ok /\ r.v # val /\ \E j \in (i + 1)..Len(ts) : Conforms(ts[j], val) THEN {"firstMatch"} ELSE {}
        IN IF r.ok THEN Ok(r.v, st.dev \cup r.dev \cup fm, r.m)                           \* vals.append(...); break
           ELSE IF ts[i].k = "str" /\ ~IsStr(val) /\ IsStr(orig)                          \* :841-843
-               THEN AlgUnionLoop(ts, i + 1, r.m, orig, top, ser, [good |-> TRUE, last |-> "orig", dev |-> dv])
-               ELSE AlgUnionLoop(ts, i + 1, r.m, orig, top, ser, [good |-> st.good, last |-> "exc", dev |-> dv])
+               THEN AlgUnionLoop(ts, i + 1, r.m, orig, top, ser, [good |-> TRUE, dev |-> dv])
+               ELSE AlgUnionLoop(ts, i + 1, r.m, orig, top, ser, [good |-> st.good, dev |-> dv])
 
 \* ActionTypeHint._is_valid_string:613-617
 ValidString(t, x) == IsStr(x) /\ (t.k = "str" \/ (t.k = "union" /\ StrT \in Range(t.v)))
@@ -641,6 +684,9 @@ AlgCheckType(t, x, dflt) ==
 RECURSIVE SharedMerge(_, _), Protect(_, _)
 SharedMerge(v, m) ==
   IF v.k = "tuple" /\ m.k \in {"tuple", "list"} /\ Len(m.v) = Len(v.v) THEN TupleV([n \in 1..Len(v.v) |-> SharedMerge(v.v[n], m.v[n])])
+  \* Dict[int, .] makes a NEW dict ({cast(k): v ...}, :918): the old one keeps its keys and its value OBJECTS
+  ELSE IF v.k = "dict" /\ m.k = "dict" /\ Len(m.v) = Len(v.v) /\ (\E n \in 1..Len(v.v) : v.v[n][1] # m.v[n][1])
+       THEN DictV([n \in 1..Len(v.v) |-> <<v.v[n][1], SharedMerge(v.v[n][2], m.v[n][2])>>])
   ELSE IF v.k \in {"list", "dict"} /\ m.k = v.k THEN m
   ELSE v
 Protect(v, m) ==
@@ -664,15 +710,6 @@ AlgParse(t, x, dflt) ==
             ELSE LET r3 == AlgCheckType(t, r2.v, dflt) IN
                  IF r3.ok THEN Ok(Protect(r2.v, r3.m), r1.dev \cup r2.dev \cup r3.dev \cup (IF Protect(r2.v, r3.m) # r2.v THEN {"validateLeak"} ELSE {}), r1.m)
                  ELSE Er(r1.dev \cup r2.dev \cup r3.dev, r1.m)
-
-\* The NAME of the argument is also the name of a Namespace method (--items, --keys, --get, --g.items ...) and the value
-\* comes as an object (parse_object / parse_string / a config file): _core._apply_actions walks cfg.__dict__, whose keys
-\* carry the clash mark, finds no action for them and leaves the value as it is; only validate looks at it (on a clone,
-\* the result is discarded).  parse_args is not affected.  Deviation clashKey when the value is not already normalised.
-AlgParseClash(t, x, dflt) ==
-  IF x = NoneV THEN Ok(NoneV, {}, x)
-  ELSE LET r3 == AlgCheckType(t, x, dflt) IN
-       IF r3.ok THEN Ok(Protect(x, r3.m), r3.dev \cup (IF r3.v # x THEN {"clashKey"} ELSE {}), x) ELSE Er(r3.dev, x)
 
 \* The key is NOT given and the argument has the default d.
 \*   parse_object: _core.py:508  cfg = self._apply_actions(cfg) runs the defaults through _check_type -- the same passes
@@ -729,6 +766,36 @@ StripMeta(y) == CASE y.k = "list" -> ListV([n \in 1..Len(y.v) |-> StripMeta(y.v[
                   [] y.k = "dict" -> LET z == NoMeta(y) IN DictV([n \in 1..Len(z.v) |-> <<z.v[n][1], StripMeta(z.v[n][2])>>])
                   [] OTHER -> y
 AlgDump(t, val) == LET s == AlgSer(t, StripMeta(val)) IN IF s.ok THEN Ok(s.v, s.dev \cup TreeDevs(s.v), val) ELSE s
+\* dump(cfg) serialises a clone of cfg -- which shares tuples with cfg (see Protect): what is converted in place below a tuple
+\* shows in the caller's configuration.  The configuration after dump:
+\* (dump takes the "__path__" entries off its clone first: they are put back where the caller has them)
+RECURSIVE ReMeta(_, _)
+ReMeta(v, m) ==
+  IF v.k = "list" /\ m.k = "list" /\ Len(m.v) = Len(v.v) THEN ListV([n \in 1..Len(v.v) |-> ReMeta(v.v[n], m.v[n])])
+  ELSE IF v.k = "dict" /\ m.k = "dict" /\ Len(NoMeta(v).v) = Len(m.v)
+       THEN LET idx(n) == Cardinality({j \in 1..n : v.v[j][1] # MetaKey})
+            IN DictV([n \in 1..Len(v.v) |-> IF v.v[n][1] = MetaKey THEN v.v[n] ELSE <<m.v[idx(n)][1], ReMeta(v.v[n][2], m.v[idx(n)][2])>>])
+  ELSE m
+AfterDump(t, val) == Protect(val, ReMeta(val, AlgSer(t, StripMeta(val)).m))
+RECURSIVE MutableBelowTuple(_, _)
+MutableBelowTuple(y, below) == CASE y.k = "tuple" -> \E n \in 1..Len(y.v) : MutableBelowTuple(y.v[n], TRUE)
+                                 [] y.k = "list" -> below \/ \E n \in 1..Len(y.v) : MutableBelowTuple(y.v[n], below)
+                                 [] y.k = "dict" -> below \/ \E n \in 1..Len(y.v) : MutableBelowTuple(y.v[n][2], below)
+                                 [] OTHER -> FALSE
+\* The numbers / texts that serialisation hands to the dumper AS THE OBJECTS THEY ARE: the serializer of a restricted type
+\* writes int(v) / float(v) / str(v), a plain value; the other branches (Enum :809-811, Literal, Any, int / float / str)
+\* return the object.  A value of a restricted type is an instance of a sub-class of int / float / str, so when another
+\* Union member serialises it first it stays such an instance -- which yaml.safe_dump refuses (deviation leftInstance).
+RECURSIVE Lefts(_, _)
+Lefts(t, val) ==
+  CASE t.k = "union" -> LET ts == SortUnion(t.v, val)
+                            W  == {i \in 1..Len(ts) : AlgAdapt(ts[i], val, val, FALSE, TRUE).ok}
+                        IN IF W = {} THEN {} ELSE Lefts(ts[Min(W)], val)
+    [] t.k \in {"list", "set", "tupleE"} -> IF IsListable(val) /\ Len(t.v) > 0 THEN UNION {Lefts(t.v[1], AsSeq(val)[n]) : n \in 1..Len(AsSeq(val))} ELSE {}
+    [] t.k = "tuple" -> IF IsSeqLike(val) /\ Len(AsSeq(val)) = Len(t.v) THEN UNION {Lefts(t.v[n], AsSeq(val)[n]) : n \in 1..Len(t.v)} ELSE {}
+    [] t.k = "dict" -> IF val.k = "dict" /\ Len(t.v) = 2 THEN UNION {Lefts(t.v[2], val.v[n][2]) : n \in 1..Len(val.v)} ELSE {}
+    [] t.k \in {"rstr", "rnum", "reg"} -> {}
+    [] OTHER -> {l \in Leaves(val) : l.k \in {"int", "float", "str"}}      \* (a container that the Enum branch returns whole)
 \* the tree as a loader returns it: every set (and tuple) that was written is a list again (a set in SOME order)
 RECURSIVE Unbag(_)
 Unbag(y) == CASE y.k = "bag" -> ListV([n \in 1..Len(AsSeq(y)) |-> Unbag(AsSeq(y)[n])])
@@ -758,7 +825,6 @@ AlgPermInvariantA(t, x, d, a) ==
   \A p \in AllPerms(t) : LET b == AlgParse(p, x, d) IN (Devs(a) = {} /\ Devs(b) = {}) => a.ok = b.ok
 \* the deviations stay inside their description
 DevsAsDescribedA(t, x, a) ==
-  /\ "excLeak" \in a.dev => ~a.ok                                                         \* a leaked exception is always caught by validation
   /\ (Devs(a) # {} /\ Devs(a) \subseteq {"litEq", "dictKey", "origNested"} /\ ~a.ok) => ~Accepts(t, x)   \* these three only ever accept more
 
 \* C10: a result is a fixed point of the parse, and its config representation is a fixed point of dump o parse
@@ -769,6 +835,8 @@ DumpStableA(t, d, a) ==
        LET s == AlgDump(t, a.v)
        IN s.ok /\ (s.dev = {} => LET r == AlgParse(t, Unbag(s.v), d)
                                  IN r.dev = {} => (r.ok /\ (r.v # NoneV => AlgDump(t, r.v).v = s.v)))
+\* dump does not change the configuration it is given -- except through a list / dict below a tuple (deviation dumpLeak)
+DumpPureA(t, a) == (a.ok /\ a.v # NoneV /\ AfterDump(t, a.v) # a.v) => MutableBelowTuple(a.v, FALSE)
 \* ... and a default that is filled in is normalised like a value that is given (outside rawDefault)
 AbsentLawsA(t, d, a) == (a.dev = {} /\ a.ok) => (ConformsTop(t, a.v) /\ a.v \in TopResults(t, d))
 
